@@ -219,7 +219,8 @@ async fn deliver_pull(
         .await
         .map_err(|e| format!("rename {}: {e}", local_dest.display()))?;
     if let Some(t) = mtime {
-        let _ = set_local_mtime(local_dest, t);
+        set_local_mtime(local_dest, t)
+            .map_err(|e| format!("set mtime {}: {e}", local_dest.display()))?;
     }
     Ok(size)
 }
@@ -337,7 +338,7 @@ async fn deliver_local(src: &Path, dst: &Path, mtime: Option<i64>) -> Result<u64
         .await
         .map_err(|e| format!("rename {}: {e}", dst.display()))?;
     if let Some(t) = mtime {
-        let _ = set_local_mtime(dst, t);
+        set_local_mtime(dst, t).map_err(|e| format!("set mtime {}: {e}", dst.display()))?;
     }
     Ok(size)
 }
